@@ -15,7 +15,7 @@ static ALLOCS: AtomicU64 = AtomicU64::new(0);
 static MAXREQ: AtomicU64 = AtomicU64::new(0);
 static ENABLED: AtomicBool = AtomicBool::new(false);
 
-const NWATCH: usize = 64;
+const NWATCH: usize = 512;
 static WATCH_ADDR: [AtomicUsize; NWATCH] = [const { AtomicUsize::new(0) }; NWATCH];
 static WATCH_LEN: [AtomicUsize; NWATCH] = [const { AtomicUsize::new(0) }; NWATCH];
 // result per slot: 0 = not yet released, 1 = released all-zero, 2 = released with non-zero bytes
